@@ -23,6 +23,10 @@ def run(ctx):
     rule_A2_A6(ctx)
     from ..initrules import rule_I1
     rule_I1(ctx, {'counter', 'rows'})
+    # ... also across a resume: the stored rows come back in shell order
+    from ..persist import rule_P9, rule_P12
+    rule_P9(ctx, ctx.program.func('Sampler.__init__'), 'self')
+    rule_P12(ctx, ctx.program.func('Sampler.__init__'), 'self')
     rule_P4_sampler_subset(ctx, ('points', 'log_l', 'blobs', 'shell_t', 'bound', 'pop_shell', 'add_bound', 'first-batch',
                             'update-shell', 'batch-checkpointed', 'optional-init') + ('shell_', '_discard_exploration', 'explored', 'discard_explora'),
                            'the stored rows, the exploration boundary and the discard flag')
